@@ -171,6 +171,13 @@ func vaRead(stream io.Reader, includeSEI bool, maxCalls int) (out []vkM, errs st
 		}
 	}()
 	out = []vkM{}
+	// the application keeps the units it was given and looks at them when the stream has ended
+	var kept []*NAL
+	defer func() {
+		for _, nal := range kept {
+			out = append(out, vaProject(nal))
+		}
+	}()
 	rd, err := NewReaderWithOptions(stream, WithIncludeSEI(includeSEI))
 	if err != nil {
 		return out, "new: " + err.Error()
@@ -183,7 +190,7 @@ func vaRead(stream io.Reader, includeSEI bool, maxCalls int) (out []vkM, errs st
 			}
 			return out, err.Error()
 		}
-		out = append(out, vaProject(nal))
+		kept = append(kept, nal)
 	}
 	return out, "no-eof"
 }
